@@ -452,6 +452,30 @@ static void build(vf::Plan &plan, const vf::Opts &o)
             .case_timeout_s = 5;
     }
 
+    // numbers beyond the int range in every numeric position of a field (they are read with strtol and narrowed): the
+    // enumerated values narrow to something small or negative, so nothing large is asked of the allocator
+    {
+        static const char *const BIG[] = {"2147483648", "4294967295", "4294967296", "4294967297", "4294967301", "8589934592",
+                                          "9223372036854775807", "9223372036854775808", "18446744073709551615", "99999999999999999999999"};
+        static const char *const POS[] = {"{%s}", "{.%s}", "{&%s}", "{_*%s}", "{0%s}", "{<%s}", "{%s.1}", "{1.%s}", "{&1.%s}", "{%sc}", "{.%sf}", "{%sx}", "{#+%sb}"};
+        enum { NBIG = sizeof BIG / sizeof *BIG, NPOS = sizeof POS / sizeof *POS };
+        auto mk = [](uint64_t i) {
+            unsigned pos = (unsigned)vf::take(i, NPOS), lit = (unsigned)vf::take(i, 2);
+            return std::string(lit ? "ab" : "") + strf(POS[pos], BIG[i % NBIG]);
+        };
+        plan.stage(strf("numbers beyond the int range (%u values) in %u field positions x 12 argument lists / sinks + argument-value battery", (unsigned)NBIG,
+                        (unsigned)NPOS),
+                   (uint64_t)NBIG * NPOS * 2,
+                   [mk](uint64_t i, Ctx &c) {
+                       std::string s = mk(i);
+                       check_format(c, &s, N_LISTS);
+                       check_values(c, s);
+                       check_views(c, s);
+                   },
+                   [mk](uint64_t i) { return describe_fmt(mk(i)); })
+            .case_timeout_s = 10;
+    }
+
     // every well-formed single field over the full option product (optionally behind a literal, so that the
     // writer already holds text when padding is computed): totality of the *rendering* paths the parser selects
     {
